@@ -5,12 +5,17 @@ From RbxVerif Require Import BitSets.
 From Coq Require Import Lia.
 Open Scope N_scope.
 
-Definition nrange (n : nat) : list N := List.map N.of_nat (seq 0 n).
-Lemma in_nrange n x : x < N.of_nat n -> In x (nrange n).
+(* [0; 1; ...; n-1], built in N (a range through `seq` on unary nat would cost n^2 to compute) *)
+Fixpoint nseq (k : nat) (start : N) : list N :=
+  match k with O => [] | S k' => start :: nseq k' (N.succ start) end.
+Definition nrange (n : N) : list N := nseq (N.to_nat n) 0.
+Lemma in_nseq k : forall s x, s <= x < s + N.of_nat k -> In x (nseq k s).
 Proof.
-  intros H. unfold nrange. apply in_map_iff. exists (N.to_nat x). split; [apply N2Nat.id|].
-  apply in_seq. lia.
+  induction k as [|k IH]; intros s x H; [cbn in H; lia|]. cbn [nseq].
+  destruct (N.eq_dec x s) as [->|Hne]; [now left|right]. apply IH. rewrite Nat2N.inj_succ in H. lia.
 Qed.
+Lemma in_nrange n x : x < n -> In x (nrange n).
+Proof. intros H. unfold nrange. apply in_nseq. rewrite N2Nat.id. lia. Qed.
 
 (* one byte against one flag table: valid sets (below `lim`) survive both serde forms, all others are rejected *)
 Definition set_ok (t : flag_table) (lim b : N) : bool :=
@@ -56,14 +61,14 @@ Theorem faces_roundtrip : forall b, b < 64 ->
   flags_of_byte FACES (flags_to_byte b) = Ok b.
 Proof.
   intros b Hb. apply (set_ok_valid FACES 64 b); [|exact Hb].
-  apply (proj1 (forallb_forall _ _) faces_all_ok). apply in_nrange. cbn. lia.
+  apply (proj1 (forallb_forall _ _) faces_all_ok). apply in_nrange. lia.
 Qed.
 Theorem axes_roundtrip : forall b, b < 8 ->
   flags_from_bits AXES b = Some b /\ flags_of_names AXES 0 (flags_names AXES b) = Ok b /\
   flags_of_byte AXES (flags_to_byte b) = Ok b.
 Proof.
   intros b Hb. apply (set_ok_valid AXES 8 b); [|exact Hb].
-  apply (proj1 (forallb_forall _ _) axes_all_ok). apply in_nrange. cbn. lia.
+  apply (proj1 (forallb_forall _ _) axes_all_ok). apply in_nrange. lia.
 Qed.
 
 (* every other u8 is rejected *)
@@ -71,13 +76,13 @@ Theorem faces_reject : forall b, 64 <= b < 256 ->
   flags_from_bits FACES b = None /\ flags_of_byte FACES b = Err ERR_FLAG_BITS.
 Proof.
   intros b Hb. apply (set_ok_invalid FACES 64 b); [|lia].
-  apply (proj1 (forallb_forall _ _) faces_all_ok). apply in_nrange. cbn. lia.
+  apply (proj1 (forallb_forall _ _) faces_all_ok). apply in_nrange. lia.
 Qed.
 Theorem axes_reject : forall b, 8 <= b < 256 ->
   flags_from_bits AXES b = None /\ flags_of_byte AXES b = Err ERR_FLAG_BITS.
 Proof.
   intros b Hb. apply (set_ok_invalid AXES 8 b); [|lia].
-  apply (proj1 (forallb_forall _ _) axes_all_ok). apply in_nrange. cbn. lia.
+  apply (proj1 (forallb_forall _ _) axes_all_ok). apply in_nrange. lia.
 Qed.
 
 (* ---- the reader of name lists: duplicates, order, unknown names (any table) ---- *)
